@@ -273,7 +273,8 @@ def run(ctx):
         payload = ("ref", fld(deref(inner), 1))
         good = len(exs) == 2
         ptr_ok = typ_ok = size_ok = conj = False
-        t2 = "multiboot2::tag_type::primitive_conversion_impls::<impl core::convert::From<multiboot2::tag_type::TagType> for u32>::from"
+        from . import tagtables as TT_
+        t2 = TT_.conv_key(F, "t2")
         exp_off = G.lin(("saturating", "Sub", (("zext", ("fld", ("fld", ("deref", ("fld", ("deref", ("arg", 1, "&multiboot2::boot_information::BootInformation<'_>")), 0, "0", "&multiboot2_common::DynSizedStructure<%s>" % HDR)), 0, "header", HDR), 0, "total_size", "u32"), "u32", "usize"), ("c", 8)), "usize")).add(G.Lin(8), -1)
 
         def conjunct(c):
